@@ -7,6 +7,7 @@ import re
 
 import vlib
 from vlib import gZ, gQ, gbool, gopt
+from props import c14_ext as X
 
 F = fractions.Fraction
 PID = 'C14'
@@ -15,40 +16,60 @@ TARGETS = ['C14/Props.vo', 'C14/Corr.vo']
 MODEL_TARGETS = ['C14/Corr.vo']
 PROPS_FILE = 'C14/Props.v'
 PROPS_MODULE = 'QV.C14.Props'
-CORR_IMPORTS = ['QV.C14.Model', 'QV.C14.Corr']
+CORR_IMPORTS = ['QV.C14.Model', 'QV.C14.Dispatch', 'QV.C14.Corr']
 CHECK_CORR = 'check_corr'
 CHECK_SPEC = 'check_spec'
 SHARD = 400
 RULE = ('kernel cases: (alpha_num, d_num, den) and (x, abs_err) rationals, random + boundary (tolerance equal to / '
         'larger than the fractional part, interval ends that are simple fractions); operator cases: every binary / '
         'comparison / unary operator x operand type {time, int, Fraction, float} x operand order; from_float in the '
-        'three modes on random and boundary floats.  Non-trivial = kernel case that enters the loop, operator case '
-        'with a non-integer operand, float that is not an integer; distinct = distinct canonical JSON of the case.')
+        'three modes on random and boundary floats; deterministic families: integral floats > 2^53 / powers of ten around '
+        'the tie 1e23 / subnormals / binade boundaries (from_float, arithmetic, comparisons, binary64 round trip), exact '
+        'ties k+1/2 with even and odd floor and both signs for round/floor/ceil/trunc/int; `disp`: operands of 25 Python '
+        'types (numpy float16/32/64/longdouble/int8/int64/uint8/bool_, sympy Rational/Half/Integer/Float/Symbol, Fraction '
+        'and a subclass, gmpy2 mpq/mpz/mpfr, bool, Decimal, strings, None/complex/list/object, ndarray) x six operators x '
+        'operand order; `hashval`: hash of TimeType/mpq/Fraction/int/float of equal value incl. multiples of 2^61-1. '
+        'Non-trivial = kernel case that enters the loop, operator case with a non-integer operand, float that is not an '
+        'integer, operand type other than time/int; distinct = distinct canonical JSON of the case.')
 TRUSTED = [
     'Coq 8.16.1 kernel + vm_compute (no native_compute)',
-    'translator /verif/translate/py2gallina.py (fail-closed; output re-proved equal to the clean model on every run)',
+    'translators /verif/translate/py2gallina.py and py2gallina_c14.py (fail-closed; output re-proved equal to the hand '
+    'models on every run); math.lcm / math.gcd = Z.lcm / Z.gcd, divmod = (Z.div, Z.modulo)',
     'gmpy2.mpq arithmetic is exact (the TimeType wrappers are modelled, mpq itself is not)',
-    'CPython repr(float) = shortest round-tripping decimal (oracle; parsed form is an input of the model)',
+    'CPython repr(float) = shortest round-tripping decimal (oracle; parsed form is an input of the model); int/int true '
+    'division is correctly rounded (hypothesis of C14_float_roundtrip)',
+    'sys.hash_info.modulus = 2^61-1, inf = 314159 (asserted by the harness); _Py_HashDouble modelled by its closed form',
+    'what a Python object of each type answers to hasattr/isinstance/int()/float()/mpq() (table probes_of in Dispatch.v; '
+    'the mpq()/int()/float() answers for strings, Decimal and real-like objects are read from the object by the harness)',
     'harness: generators, exact float->rational conversion (as_integer_ratio), Gallina printers',
 ]
 ASSUMPTIONS = [
-    'approximate_rational is called with reduced fractions (gmpy2.mpq normalises)',
+    'approximate_rational is called with reduced fractions with positive denominators (gmpy2.mpq normalises)',
     'pow is exercised with integer exponents only',
+    'binary64 without overflow (FLT format); 64-bit CPython',
 ]
 GEN_FILE = os.path.join(vlib.COQ, 'C14', 'Gen_numeric.v')
+
+
+GEN_FILE_RAT = os.path.join(vlib.COQ, 'C14', 'Gen_rational.v')
 
 
 def pregen(ctx):
     import sys
     sys.path.insert(0, os.path.join(vlib.VERIF, 'translate'))
     import py2gallina
-    try:
-        txt = py2gallina.translate_functions(os.path.join(vlib.REPO, 'qupulse/utils/numeric.py'), ['_approximate_int'])
-        vlib.write_if_changed(GEN_FILE, txt + '\n')
-        return [{'name': 'translate:qupulse/utils/numeric.py::_approximate_int', 'ok': True, 'detail': 'translated'}]
-    except Exception as e:   # Unsupported, SyntaxError, ...
-        return [{'name': 'translate:qupulse/utils/numeric.py::_approximate_int', 'ok': False,
-                 'detail': 'translator refused the current source: %s' % e}]
+    import py2gallina_c14
+    src = os.path.join(vlib.REPO, 'qupulse/utils/numeric.py')
+    out = []
+    for name, fn, target in (('_approximate_int', lambda: py2gallina.translate_functions(src, ['_approximate_int']), GEN_FILE),
+                             ('approximate_rational', lambda: py2gallina_c14.translate_rational(src), GEN_FILE_RAT)):
+        ob = 'translate:qupulse/utils/numeric.py::' + name
+        try:
+            vlib.write_if_changed(target, fn() + '\n')
+            out.append({'name': ob, 'ok': True, 'detail': 'translated'})
+        except Exception as e:   # Unsupported, SyntaxError, ...
+            out.append({'name': ob, 'ok': False, 'detail': 'translator refused the current source: %s' % e})
+    return out
 
 
 # ---------------------------------------------------------------------------------------------------------------------
@@ -176,6 +197,70 @@ def gen_cases(rng, tier, ctx):
             if abs(f) > 1e6:
                 f = rng.uniform(-50, 50)
         cases.append({'kind': 'from_float', 'x': f.hex(), 'mode': mode})
+    cases.extend(gen_round3(rng, tier, n))
+    return cases
+
+
+def _swap_ok(v, op):
+    k = v['k']
+    if k in ('array', 'sympy.Float', 'mpfr'):
+        return False                 # elementwise result / inexact sympy.Float or mpfr result: not a TimeType operation
+    if k in ('sympy.Rational', 'sympy.Integer', 'reflects'):
+        return op in ('add', 'sub', 'mul')          # sympy's own operators (division by zero is zoo there)
+    if k == 'str':
+        return op in ('add', 'sub', 'div')          # '%' and '*' are string operators
+    return True
+
+
+def gen_round3(rng, tier, n):
+    cases = []
+    specials = X.special_floats()
+    # (a) deterministic families for input classes the random streams reach only by luck
+    for x in specials:                                   # integral floats > 2^53, ties, huge / tiny exponents, subnormals
+        for mode in (None, 0):
+            cases.append({'kind': 'from_float', 'x': float(x).hex(), 'mode': mode})
+        cases.append({'kind': 'frt', 'x': float(x).hex()})
+    big_integral = [x for x in specials if abs(x) >= 2.0 ** 53 and abs(x) < 1e40]
+    for x in big_integral:                               # ... as float operands of arithmetic and comparisons
+        op = rng.choice(['add', 'sub', 'mul', 'div'])
+        cases.append({'kind': 'bin', 'op': op, 't': str(rnd_frac(rng)), 'other': {'ty': 'float', 'v': float(x).hex()},
+                      'swap': rng.random() < 0.5})
+        cases.append({'kind': 'cmp', 'op': rng.choice(sorted(CMPOPS)), 't': str(rng.choice([F(x), F(repr(x))])),
+                      'other': {'ty': 'float', 'v': float(x).hex()}, 'swap': rng.random() < 0.5})
+    ks = list(range(-6, 7)) + [2 ** 53, 2 ** 53 + 1, -2 ** 60, -2 ** 60 - 1, 10 ** 23, 10 ** 23 + 1]
+    for k in ks:                                         # exact ties k + 1/2 with even and odd floor, both signs
+        for op in ('round', 'floor', 'ceil', 'trunc', 'int'):
+            cases.append({'kind': 'un', 'op': op, 't': str(F(2 * k + 1, 2))})
+    for k in (-3, -2, -1, 0, 1, 2):                      # just off the tie
+        for eps in (F(1, 10 ** 20), -F(1, 10 ** 20)):
+            cases.append({'kind': 'un', 'op': 'round', 't': str(F(2 * k + 1, 2) + eps)})
+    # (b) binary64 round trip on random floats (all exponent ranges)
+    for _ in range(150 * n):
+        cases.append({'kind': 'frt', 'x': X.rnd_float64(rng).hex()})
+    # (c) operands of every Python type through the wrapper dispatch
+    kinds = X.EXACT_KINDS + X.REAL_KINDS + X.OTHER_KINDS
+    for k in kinds:                                      # every type at least a few times
+        for _ in range(3):
+            v = X.rnd_pyval(rng, k)
+            op = rng.choice(X.DISP_OPS)
+            cases.append({'kind': 'disp', 'op': op, 't': str(rnd_frac(rng)), 'v': v, 'swap': False})
+    for txt in X.DECIMAL_TEXTS:
+        cases.append({'kind': 'disp', 'op': 'add', 't': '1/3', 'v': {'k': 'Decimal', 'v': txt}, 'swap': False})
+    for txt in X.STR_TEXTS:
+        cases.append({'kind': 'disp', 'op': 'add', 't': '1/3', 'v': {'k': 'str', 'v': txt}, 'swap': False})
+    for o in X.OPAQUE:
+        cases.append({'kind': 'disp', 'op': 'mul', 't': '1/3', 'v': {'k': 'opaque', 'v': o}, 'swap': rng.random() < 0.5})
+    for _ in range(450 * n):
+        v = X.rnd_pyval(rng)
+        op = rng.choice(X.DISP_OPS)
+        t = rnd_frac(rng, big=True)
+        if rng.random() < 0.08:
+            t = F(0)
+        swap = rng.random() < 0.5 and _swap_ok(v, op)
+        cases.append({'kind': 'disp', 'op': op, 't': str(t), 'v': v, 'swap': swap})
+    # (d) numeric hash
+    for q in X.hash_values(rng, 150 * n):
+        cases.append({'kind': 'hashval', 'q': str(q)})
     return cases
 
 
@@ -258,6 +343,27 @@ def run_impl(case):
         if 'ret' in o:
             o['ret'] = vlib.frac_json(o['ret'])
         return o
+    if k == 'disp':
+        tf = F(case['t'])
+        t = TimeType.from_fraction(tf.numerator, tf.denominator)
+        try:
+            other = X.pyobj(case['v'])
+        except Exception as e:
+            return {'crash': 'harness could not build the operand: %s' % e}
+        fn = BINOPS[case['op']][1]
+        return X.observe_binop((lambda: fn(other, t)) if case['swap'] else (lambda: fn(t, other)))
+    if k == 'hashval':
+        q = F(case['q'])
+        return _outcome(lambda: X.hash_obs(q))
+    if k == 'frt':
+        x = float.fromhex(case['x'])
+        o = _outcome(lambda: TimeType.from_float(x))
+        if 'ret' in o:
+            r = o['ret']
+            back = _outcome(lambda: float(r) == x)
+            o['back'] = back.get('ret') is True
+            o['ret'] = [int(r.numerator), int(r.denominator)]
+        return o
     if k == 'from_float':
         x = float.fromhex(case['x'])
         mode = case['mode']
@@ -322,6 +428,21 @@ def to_coq(case, obs):
             return '(CCrash)'
         return '(CHash %s %s %s %s)' % (gQ(F(case['t'])), _g_operand(case['other']), gbool(obs['ret'][0]),
                                         gbool(obs['ret'][1]))
+    if k == 'disp':
+        return '(CDisp %s %s %s %s %s)' % (BINOPS[case['op']][0], gQ(F(case['t'])), X.g_pyval(case['v']), gbool(case['swap']),
+                                           X.g_bres(obs))
+    if k == 'hashval':
+        if 'ret' not in obs:
+            return '(CCrash)'
+        h = obs['ret']
+        hi = '(Some %s)' % gZ(h['int']) if 'int' in h else 'None'
+        hf = '(Some (%s, %s, %s))' % tuple(gZ(z) for z in h['float']) if 'float' in h else 'None'
+        return '(CHashVal %s %s %s %s %s %s)' % (gQ(F(case['q'])), gZ(h['time']), gZ(h['mpq']), gZ(h['frac']), hi, hf)
+    if k == 'frt':
+        if 'ret' not in obs:
+            return '(CCrash)'
+        m, e = X.float_me(float.fromhex(case['x']))
+        return '(CFloatRT %s %s %s %s %s)' % (gZ(m), gZ(e), gZ(obs['ret'][0]), gZ(obs['ret'][1]), gbool(obs['back']))
     if k == 'from_float':
         x = float.fromhex(case['x'])
         neg, mant, ex = parse_repr(x)
@@ -350,6 +471,12 @@ def nontrivial(case, obs):
         return F(case['t']).denominator != 1
     if k == 'from_float':
         return not float.fromhex(case['x']).is_integer()
+    if k == 'frt':
+        return float.fromhex(case['x']) != 0
+    if k == 'disp':
+        return case['v']['k'] not in ('time', 'int')
+    if k == 'hashval':
+        return F(case['q']).denominator != 1 or abs(F(case['q'])) >= 2 ** 61 - 1
     return True
 
 
@@ -360,6 +487,13 @@ def histogram_keys(case, obs):
         keys.append('%s:%s:%s' % (k, case['op'], case['other']['ty']))
     if k == 'from_float':
         keys.append('from_float:mode=%s' % ('None' if case['mode'] is None else '0' if case['mode'] == 0 else 'tol'))
+    if k == 'disp':
+        keys.append('disp:%s' % case['v']['k'])
+        keys.append('disp:result=%s' % obs.get('b', 'crash'))
+    if k == 'frt':
+        x = abs(float.fromhex(case['x']))
+        keys.append('frt:' + ('zero' if x == 0 else 'subnormal' if x < 2.0 ** -1022 else 'integral>2^53' if x >= 2.0 ** 53 else
+                              'normal'))
     keys.append('obs:' + sorted(obs)[0])
     return keys
 
@@ -388,15 +522,44 @@ def search_failing(ctx, broken):
                 want = brute(a, d, den)
                 if obs.get('ret') != [want[0], want[1]]:
                     return case, obs, 'fraction with the smallest denominator in the open interval is %d/%d' % want
+    # approximate_rational against brute force over small rationals and tolerances (incl. non-positive tolerances)
+    for xq in range(1, 13):
+        for xp in range(-2 * xq, 2 * xq + 1):
+            if math.gcd(xp, xq) != 1:
+                continue
+            for dq in range(1, 13):
+                for dp in range(-1, dq + 1):
+                    if dp != 0 and math.gcd(dp, dq) != 1:
+                        continue
+                    x, e = F(xp, xq), F(dp, dq)
+                    case = {'kind': 'approx_rat', 'x': str(x), 'e': str(e)}
+                    obs = run_impl(case)
+                    if e <= 0:
+                        if 'fail' not in obs:
+                            return case, obs, 'a tolerance <= 0 must be refused'
+                        continue
+                    q = 1
+                    while True:
+                        p = math.floor((x - e) * q) + 1
+                        if F(p, q) < x + e:
+                            break
+                        q += 1
+                    want = [xp, 1] if xq == 1 else [p, q]
+                    if obs.get('ret') != want:
+                        return case, obs, 'fraction with the smallest denominator in the open interval is %d/%d' % (p, q)
     return None
 
 MANIFEST = {
-    'level_text': 'Proof: the integer kernel of approximate_rational is re-translated from /repo on every run and proved '
-                  '(all inputs, unbounded) to terminate within `den` iterations and to return the fraction of smallest '
-                  'denominator strictly inside the tolerance interval; the TimeType operator table is modelled over Q and '
-                  'tied to the code by an exact correspondence check on every operator x operand type x order.',
-    'level_note': 'Trusted: Coq kernel, translator, gmpy2.mpq exactness, repr(float) shortest-round-trip contract, harness. '
-                  'Float<->decimal round trip is observed on the implementation (not proved about binary64).',
-    'technique': 'Coq proof (Stern-Brocot invariant) over AST-translated kernel + correspondence check',
+    'level_text': 'Proof: approximate_rational and its integer kernel are re-translated from /repo on every run and proved '
+                  '(all inputs, unbounded) to terminate within lcm(xq, dq) iterations and to return the fraction of '
+                  'smallest denominator strictly inside the tolerance interval; the TimeType operator table and the operand '
+                  'dispatch (_converter / _try_from_any) are modelled over Q and tied to the code by an exact correspondence '
+                  'check on every operator x 25 operand types x order; Python\'s numeric hash (mod 2^61-1) is modelled and '
+                  'proved to depend only on the rational value and to agree with the int / float hash; the binary64 round '
+                  'trip float(from_float(x)) == x is proved with Flocq from two explicit CPython hypotheses.',
+    'level_note': 'Trusted: Coq kernel, translators, gmpy2.mpq exactness, repr(float) shortest-round-trip contract and '
+                  'correctly rounded int/int (hypotheses of the Flocq theorem), the per-type probe table, harness. The '
+                  'executable rounding-interval criterion used by check_spec is not yet proved against Flocq (stated).',
+    'technique': 'Coq proof (Stern-Brocot invariant, modular arithmetic, Flocq) over AST-translated code + correspondence check',
     'design_ref': 'DESIGN.md §5 C14',
 }
